@@ -297,7 +297,7 @@ def parser_declares(mod, expected):
 def writer_tail_idiom(mod, fns, file_param='my_file'):
     """write_robot_A/B/C are verified up to `game = {...}` (the dictionary's values are what the cut conditions constrain). What
     follows is TEXT, outside the solver theories; this obligation pins its shape so that the bounded round-trip check is about
-    pretty-printing only: after the (single, top-level, last) assignment `game = {<4 literal keys>: <names>}` every remaining
+    pretty-printing only: after the (single, top-level, last) assignment `game = {<the 4 literal keys>: <any expressions>}` every remaining
     statement is `<file>.write(E)` with E a string literal or `str(game).replace(c1, c2)...` whose arguments are string constants
     (literals, module constants bound once to string literals, or `+` of those); `game` is not touched in between."""
     def check(mods):
@@ -333,12 +333,24 @@ def writer_tail_idiom(mod, fns, file_param='my_file'):
                 return strconst(e.left) and strconst(e.right)
             return False
 
-        def text_of_game(e, gname):
+        def text_of_game(e, gname, textvars=()):
             if isinstance(e, _a.Call) and isinstance(e.func, _a.Attribute) and e.func.attr == 'replace' and len(e.args) == 2 and not e.keywords \
                     and all(strconst(a) for a in e.args):
-                return text_of_game(e.func.value, gname)
+                return text_of_game(e.func.value, gname, textvars)
+            if isinstance(e, _a.Name) and e.id in textvars:
+                return True
+            if isinstance(e, _a.Call) and isinstance(e.func, _a.Name) and e.func.id in helpers and len(e.args) == 1 and not e.keywords:
+                return isinstance(e.args[0], _a.Name) and e.args[0].id == gname          # a one-line formatting helper applied to the dictionary
             return isinstance(e, _a.Call) and isinstance(e.func, _a.Name) and e.func.id == 'str' and len(e.args) == 1 and not e.keywords \
                 and isinstance(e.args[0], _a.Name) and e.args[0].id == gname
+        # module-level helpers `def h(p): [docstring]; return str(p).replace(const, const)...` bound once
+        helpers = set()
+        for n in tree.body:
+            if isinstance(n, _a.FunctionDef) and len(n.args.args) == 1 and not n.args.vararg and not n.args.kwarg and not n.args.kwonlyargs and not n.decorator_list \
+                    and stores.get(n.name, 0) == 0 and sum(1 for m in tree.body if isinstance(m, _a.FunctionDef) and m.name == n.name) == 1:
+                body = [b for b in n.body if not (isinstance(b, _a.Expr) and isinstance(b.value, _a.Constant))]
+                if len(body) == 1 and isinstance(body[0], _a.Return) and body[0].value is not None and text_of_game(body[0].value, n.args.args[0].arg):
+                    helpers.add(n.name)
         if any(isinstance(n, (_a.FunctionDef, _a.Assign)) and 'str' in [getattr(n, 'name', None)] + [t.id for t in getattr(n, 'targets', []) if isinstance(t, _a.Name)] for n in _a.walk(tree)):
             return False, '`str` is rebound in the module'
         for q in fns:
@@ -351,13 +363,27 @@ def writer_tail_idiom(mod, fns, file_param='my_file'):
             st = f.body[idx[0]]
             g = st.targets[0].id
             keys = [k.value if isinstance(k, _a.Constant) else None for k in st.value.keys]
-            if keys != ['rewards', 'players', 'transition_list', 'final_states'] or not all(isinstance(v, _a.Name) for v in st.value.values):
-                return False, f'{q}: the dictionary is not {{rewards, players, transition_list, final_states}} of plain names'
+            if keys != ['rewards', 'players', 'transition_list', 'final_states']:
+                return False, f'{q}: the dictionary does not have exactly the keys rewards, players, transition_list, final_states'
             if sum(1 for n in _a.walk(f) if isinstance(n, _a.Name) and n.id == g and isinstance(n.ctx, _a.Store)) != 1:
                 return False, f'{q}: `{g}` is bound more than once'
             tail = f.body[idx[0] + 1:]
             n_text = 0
+            textvars = set()
+            logs = _loggers(tree) | {'logging'}
             for t in tail:
+                # a log call that mentions neither the dictionary nor the file writes nothing into the file
+                if isinstance(t, _a.Expr) and isinstance(t.value, _a.Call) and isinstance(t.value.func, _a.Attribute) and isinstance(t.value.func.value, _a.Name) \
+                        and t.value.func.value.id in logs and t.value.func.attr in ('debug', 'info', 'warning', 'error', 'critical', 'log') \
+                        and not any(isinstance(n, _a.Name) and n.id in (g, file_param) for n in _a.walk(t)):
+                    continue
+                if isinstance(t, _a.Pass) or (isinstance(t, _a.Return) and (t.value is None or (isinstance(t.value, _a.Constant) and t.value.value is None))):
+                    continue
+                # the text may be built in steps through local names: x = str(game) / x = x.replace(const, const)
+                if isinstance(t, _a.Assign) and len(t.targets) == 1 and isinstance(t.targets[0], _a.Name) and t.targets[0].id not in (g, file_param) \
+                        and text_of_game(t.value, g, textvars):
+                    textvars.add(t.targets[0].id)
+                    continue
                 ok = isinstance(t, _a.Expr) and isinstance(t.value, _a.Call) and isinstance(t.value.func, _a.Attribute) and t.value.func.attr == 'write' \
                     and isinstance(t.value.func.value, _a.Name) and t.value.func.value.id == file_param and len(t.value.args) == 1 and not t.value.keywords
                 if not ok:
@@ -365,7 +391,7 @@ def writer_tail_idiom(mod, fns, file_param='my_file'):
                 a = t.value.args[0]
                 if strconst(a):
                     continue
-                if text_of_game(a, g):
+                if text_of_game(a, g, textvars):
                     n_text += 1
                     continue
                 return False, f'{q}: line {t.lineno} writes something other than a string constant or str({g}).replace(<const>, <const>)...'
